@@ -131,6 +131,22 @@ const c20Upper = "ABCDEFGHIJKLMNOPQRSTUVWXYZ0123456789"
 const c20NameAlpha = "ABCDEFGHIJKLMNOPQRSTUVWXYZ0123456789_-&<>'\" .abcxyz"
 const c20AA = "ACDEFGHIKLMNPQRSTVWY"
 
+// c20Date draws a valid calendar date (every day of every month, leap days
+// included), biased towards month ends.
+func c20Date(t *core.Tape) string {
+	y := 1986 + t.Draw(40)
+	m := 1 + t.Draw(12)
+	dim := []int{31, 28, 31, 30, 31, 30, 31, 31, 30, 31, 30, 31}[m-1]
+	if m == 2 && (y%4 == 0 && (y%100 != 0 || y%400 == 0)) {
+		dim = 29
+	}
+	d := 1 + t.Draw(dim)
+	if t.Draw(4) == 3 {
+		d = dim
+	}
+	return fmt.Sprintf("%04d-%02d-%02d", y, m, d)
+}
+
 // c20Doc renders a document; it returns the bytes and the offset just behind each </entry>.
 func c20Doc(t *core.Tape, entries []c20Entry, compact bool) ([]byte, []int) {
 	var b bytes.Buffer
@@ -149,7 +165,7 @@ func c20Doc(t *core.Tape, entries []c20Entry, compact bool) ([]byte, []int) {
 		if !compact && t.Draw(10) == 9 {
 			b.WriteString("<!-- " + c20Word(t, c20Upper+" <>", 0, 12) + " -->\n")
 		}
-		fmt.Fprintf(&b, `<entry dataset="%s" created="20%02d-%02d-%02d" modified="2019-05-08" version="%d">`, []string{"Swiss-Prot", "TrEMBL"}[t.Draw(2)], t.Draw(20), 1+t.Draw(12), 1+t.Draw(28), 1+t.Draw(90))
+		fmt.Fprintf(&b, `<entry dataset="%s" created="%s" modified="%s" version="%d">`, []string{"Swiss-Prot", "TrEMBL"}[t.Draw(2)], c20Date(t), c20Date(t), 1+t.Draw(90))
 		nl()
 		for _, a := range e.Accessions {
 			b.WriteString("<accession>" + a + "</accession>")
@@ -174,7 +190,7 @@ func c20Doc(t *core.Tape, entries []c20Entry, compact bool) ([]byte, []int) {
 				fmt.Fprintf(&b, `<feature type="chain" id="PRO_%d" description="%s"><location><begin position="1"/><end position="%d"/></location></feature>`+"\n", t.Draw(100000), c20Esc(t, c20Word(t, c20NameAlpha, 0, 20)), 1+t.Draw(500))
 			}
 		}
-		fmt.Fprintf(&b, `<sequence length="%d" mass="%d" checksum="%s" modified="2009-05-05" version="1">%s</sequence>`, len(e.Seq), 110*len(e.Seq)+1, c20Word(t, "0123456789ABCDEF", 16, 16), e.Seq)
+		fmt.Fprintf(&b, `<sequence length="%d" mass="%d" checksum="%s" modified="%s" version="1">%s</sequence>`, len(e.Seq), 110*len(e.Seq)+1, c20Word(t, "0123456789ABCDEF", 16, 16), c20Date(t), e.Seq)
 		nl()
 		b.WriteString("</entry>")
 		ends = append(ends, b.Len())
